@@ -2227,10 +2227,12 @@ func (k *Kernel) loadInitialCommittingView(ctx context.Context, s *kState) error
 	h := s.Committing.Height
 	r := s.Committing.Round
 
-	if h == k.initialHeight || h == k.initialHeight+1 {
+	if h == k.initialHeight {
 		vs = k.initialValSet
 	} else {
-		// Load commit proof at h-1, take next validators.
+		// Load the committed header at h-1, take its next validators:
+		// that is the set the live path adopted when h-1 was committed,
+		// which need not be the initial set even at initialHeight+1.
 		ch, err := k.hStore.LoadCommittedHeader(ctx, h-1)
 		if err != nil {
 			panic(err)
@@ -2307,11 +2309,13 @@ func (k *Kernel) loadInitialVotingView(ctx context.Context, s *kState) error {
 	h := s.Voting.Height
 	r := s.Voting.Round
 
-	if h == k.initialHeight || h == k.initialHeight+1 {
+	if h == k.initialHeight {
 		vs = k.initialValSet
 	} else {
 		// During initialization, we have set the committing block on the kState value.
-		vs = s.CommittingHeader.ValidatorSet
+		// The voting height uses the set that the committing header prescribes for the next height,
+		// exactly as ShiftVotingToCommitting does on the live path.
+		vs = s.CommittingHeader.NextValidatorSet
 	}
 
 	if len(vs.Validators) == 0 {
